@@ -177,6 +177,10 @@ func run(r *core.Run) {
 			}
 			do(kase{Kind: "zip", Entries: []entry{{"cue.mod/module.cue", "regular", -1, modFile}, {p, "regular", -1, "1"}, {q, "regular", -1, "22"}}})
 			do(kase{Kind: "zip", Entries: []entry{{p, "regular", -1, "1"}, {q + "/", "dir", -1, ""}, {"cue.mod/module.cue", "regular", -1, modFile}}})
+			if related(p, q) {
+				do(kase{Kind: "zip", Entries: []entry{{"cue.mod/module.cue", "regular", -1, modFile}, {p, "dir", -1, "1"}, {q, "regular", -1, "22"}}})
+				do(kase{Kind: "zip", Entries: []entry{{"cue.mod/module.cue", "regular", -1, modFile}, {p, "dir", -1, "1"}, {q, "dir", -1, "22"}}})
+			}
 		}
 		if r.Expired() {
 			break
@@ -188,7 +192,11 @@ func run(r *core.Run) {
 		n    int64
 	}{{"cue.mod/module.cue", modzip.MaxCUEMod}, {"LICENSE", modzip.MaxLICENSE}, {"total", modzip.MaxZipFile}} {
 		for _, sz := range []int64{0, 1, lim.n - 1, lim.n, lim.n + 1} {
-			do(kase{Kind: "limit", Limit: lim.name, Size: sz})
+			for _, mode := range []string{"regular", "dir", "setuid", "symlink"} {
+				// the header mode must not matter: an entry without a trailing
+				// slash is extracted as a file whatever its mode bits say
+				do(kase{Kind: "limit", Limit: lim.name, Size: sz, Entries: []entry{{Mode: mode}}})
+			}
 		}
 	}
 	if workerRoot != "" {
@@ -514,7 +522,9 @@ func rawZip(entries []entry) []byte {
 		if e.Declared >= 0 {
 			h.UncompressedSize64 = uint64(e.Declared)
 		}
-		if e.Mode == "dir" {
+		if strings.HasSuffix(e.Path, "/") {
+			// a real directory entry; an entry with the directory mode bit but
+			// no trailing slash keeps its data (Unzip extracts it as a file)
 			h.Method = zip.Store
 			h.CompressedSize64, h.UncompressedSize64, h.CRC32 = 0, 0, 0
 			comp.Reset()
@@ -562,9 +572,6 @@ func checkZip(r *core.Run, c kase) {
 		if strings.HasSuffix(e.Path, "/") {
 			continue
 		}
-		if e.Mode == "dir" {
-			e.Content = "" // rawZip stores directory-mode entries empty
-		}
 		g, ok := got[e.Path]
 		if !ok {
 			r.Violation(keyOf("Unzip succeeded but an entry was not extracted", c), c, fmt.Sprintf("missing %q; got %v", e.Path, got))
@@ -610,18 +617,22 @@ func checkZip(r *core.Run, c kase) {
 func checkLimit(r *core.Run, c kase) {
 	r.Trans(1)
 	name := c.Limit
+	zmode := "regular"
+	if len(c.Entries) > 0 && c.Entries[0].Mode != "" {
+		zmode = c.Entries[0].Mode
+	}
 	files := []memFile{}
 	var zipEntries []entry
 	switch name {
 	case "cue.mod/module.cue":
 		files = append(files, memFile{entry{name, "regular", c.Size, modFile}})
-		zipEntries = []entry{{name, "regular", c.Size, modFile}}
+		zipEntries = []entry{{name, zmode, c.Size, modFile}}
 	case "LICENSE":
 		files = append(files, memFile{entry{"cue.mod/module.cue", "regular", -1, modFile}}, memFile{entry{name, "regular", c.Size, "x"}})
-		zipEntries = []entry{{"cue.mod/module.cue", "regular", -1, modFile}, {name, "regular", c.Size, "x"}}
+		zipEntries = []entry{{"cue.mod/module.cue", "regular", -1, modFile}, {name, zmode, c.Size, "x"}}
 	default: // total
 		files = append(files, memFile{entry{"cue.mod/module.cue", "regular", -1, modFile}}, memFile{entry{"big", "regular", c.Size - int64(len(modFile)), "x"}})
-		zipEntries = []entry{{"cue.mod/module.cue", "regular", -1, modFile}, {"big", "regular", c.Size - int64(len(modFile)), "x"}}
+		zipEntries = []entry{{"cue.mod/module.cue", "regular", -1, modFile}, {"big", zmode, c.Size - int64(len(modFile)), "x"}}
 		if c.Size < int64(len(modFile)) {
 			r.Outcome("limit:ok")
 			return
@@ -633,7 +644,7 @@ func checkLimit(r *core.Run, c kase) {
 	data := rawZip(zipEntries)
 	_, _, _, zerr := modzip.CheckZip(mv, bytes.NewReader(data), int64(len(data)))
 	if (ferr == nil) != wantOK || (zerr == nil) != wantOK {
-		r.Violation(fmt.Sprintf("size limit %s at %d: want ok=%v, CheckFiles ok=%v, CheckZip ok=%v", name, c.Size, wantOK, ferr == nil, zerr == nil), c, fmt.Sprintf("CheckFiles: %v\nCheckZip: %v", ferr, zerr))
+		r.Violation(fmt.Sprintf("size limit %s at %d (zip entry mode %s): want ok=%v, CheckFiles ok=%v, CheckZip ok=%v", name, c.Size, zmode, wantOK, ferr == nil, zerr == nil), c, fmt.Sprintf("CheckFiles: %v\nCheckZip: %v", ferr, zerr))
 		return
 	}
 	r.Outcome("limit:ok")
